@@ -351,6 +351,33 @@ pub fn c10_check_one(
     if !inside(&all, span) {
         vio(rep, "match_outside_span", format!("a reported match lies outside the span {:?}: {:?}", span, a_span), J::Null);
     }
+    // Input::range in its various forms must describe the same search as Input::span
+    {
+        let base = &a_span.find;
+        let mut forms: Vec<(&str, Input<'_>)> = vec![("range(s..e)", Input::new(hay).range(span.0..span.1))];
+        if span.1 > span.0 {
+            forms.push(("range(s..=e-1)", Input::new(hay).range(span.0..=span.1 - 1)));
+        }
+        if span.0 == 0 {
+            forms.push(("range(..e)", Input::new(hay).range(..span.1)));
+        }
+        if span.1 == hay.len() {
+            forms.push(("range(s..)", Input::new(hay).range(span.0..)));
+        }
+        let mut via_set = Input::new(hay);
+        via_set.set_start(span.0.min(hay.len()));
+        via_set.set_end(span.1);
+        via_set.set_start(span.0);
+        forms.push(("set_start/set_end", via_set));
+        for (name, inp) in forms {
+            let got = sem::call(|| b.s.try_find(inp.anchored(crate::cfg::anch(anchored))));
+            rep.eval();
+            rep.tally("input_range_forms");
+            if &got != base {
+                vio(rep, "range_form", format!("try_find with Input::{} = {:?}, with Input::span = {:?}", name, got, base), J::Null);
+            }
+        }
+    }
     // sub-slice search, shifted
     let sub = &hay[span.0..span.1];
     let a_sub = answers(&b.s, kind, sub, (0, sub.len()), anchored).shifted(span.0);
